@@ -57,17 +57,23 @@ def validate_all(progs: list[dict], traces: dict[str, list[dict]], refs: dict[st
     tasks = []
     for p in progs:
         ts = traces.get(p["name"], [])
-        for i in range(0, len(ts), batch):
-            tasks.append((p, ts[i:i + batch], i))
+        groups: dict[bool, list[int]] = {}
+        for i, t in enumerate(ts):
+            groups.setdefault(bool((t.get("meta") or {}).get("trust")), []).append(i)
+        for trust, idx in groups.items():
+            for j in range(0, len(idx), batch):
+                tasks.append((p, idx[j:j + batch], {"TrustNegative": "TRUE" if trust else "FALSE"}))
     out: dict[str, list] = {}
 
     def one(task):
-        p, ts, off = task
-        v = tracecheck.validate(p, ts, check_props=check_props, extra_program=oracle_tla(refs[p["name"]]["oracle"]))
+        p, idx, consts = task
+        ts = traces[p["name"]]
+        v = tracecheck.validate(p, [ts[i] for i in idx], check_props=check_props, consts=consts,
+                                extra_program=oracle_tla(refs[p["name"]]["oracle"]))
         for r in v.rejected:
-            r["trace"] += off
+            r["trace"] = idx[r["trace"]]
         for r in v.failed:
-            r["trace"] += off
+            r["trace"] = idx[r["trace"]]
         return p["name"], v
 
     with cf.ThreadPoolExecutor(max_workers=max(1, NPROC // 2)) as ex:
